@@ -1817,6 +1817,19 @@ for _k, _v in MC.COLL.items():
 FALLBACK.setdefault(r"^" + MAPT + r"::(with_capacity|with_hasher|with_capacity_and_hasher|default)$", lambda *a: MC.kmap())
 
 
+def m_into(eng, ctx, f, path, args, dty):
+    """<X as Into<Y>>::into(x) is <Y as From<X>>::from(x) (std's blanket impl); identity when Y has no From<X> in the dump
+    (conversions between representations that share one model value, e.g. &str -> String)."""
+    m = re.match(r"^<(.*) as (?:std::convert::)?Into<(.*)>>::into$", path.strip(), re.S)
+    if m:
+        x, y = m.group(1).strip(), m.group(2).strip()
+        cands = [b for b in eng.prog.by_last.get("from", []) if b.impl and b.impl[0] == "From" and b.impl[1] == base_name(y)]
+        cands = [b for b in cands if b.args and base_name(b.args[0][1]) == base_name(x)] or (cands if len(cands) == 1 else [])
+        if len(cands) == 1:
+            return TailCall(cands[0], list(args))
+    return args[0]
+
+
 def load_one(eng, ctx, p):
     if isinstance(p, Ptr):
         q = eng.load_ptr(ctx, p)
@@ -1824,6 +1837,7 @@ def load_one(eng, ctx, p):
             return q
     return p
 
+FALLBACK[r" as Into(<.*>)?>::into$"] = m_into
 for _tab in (MS.STR, MS.FMT, MS.LIST, MS.MAPS):
     for _k, _v in _tab.items():
         FALLBACK.setdefault(_k, _v)
@@ -1971,3 +1985,28 @@ STRX = {
 }
 for _k, _v in STRX.items():
     FALLBACK.setdefault(_k, _v)
+
+
+def m_strip_prefix(eng, ctx, f, path, args, dty):
+    s, p = _items(eng, ctx, args[0]), _items(eng, ctx, args[1])
+    if len(p) > len(s):
+        return none()
+    c = MS.text_eq(s[:len(p)], p)
+    return Fork([(c, some(MS.sstr(s[len(p):]))), (z3.Not(c), none())])
+
+
+def m_strip_suffix(eng, ctx, f, path, args, dty):
+    s, p = _items(eng, ctx, args[0]), _items(eng, ctx, args[1])
+    if len(p) > len(s):
+        return none()
+    c = MS.text_eq(s[len(s) - len(p):], p)
+    return Fork([(c, some(MS.sstr(s[:len(s) - len(p)]))), (z3.Not(c), none())])
+
+
+FALLBACK.setdefault(r"^core::str::(.*::)?strip_prefix$", m_strip_prefix)
+FALLBACK.setdefault(r"^core::str::(.*::)?strip_suffix$", m_strip_suffix)
+FALLBACK.setdefault(r"(^|::)(RwLock|Mutex)::new$", lambda eng, ctx, f, path, args, dty: args[0])
+FALLBACK.setdefault(r"(^|::)(RwLock|Mutex)::(into_inner|get_mut)$", lambda eng, ctx, f, path, args, dty: ok(args[0]))
+# Clone of a value the dump has no impl for (std types, type parameters): the model values are immutable trees; shared mutable
+# state lives behind pointers (cells / heap objects), which a clone of the handle keeps pointing to
+FALLBACK.setdefault(r" as Clone>::clone$", lambda eng, ctx, f, path, args, dty: clone(load(eng, ctx, args[0])) if not isinstance(load_one(eng, ctx, args[0]), Ptr) or True else args[0])
